@@ -1098,20 +1098,18 @@ bool Session::send_process(Message *msg) // called from the connection (possibly
 
 		if (!is_dup)
 		{
+			const bool increment(!msg->get_custom_seqnum() && !msg->get_no_increment()
+				&& msg->get_msgtype() != Common_MsgType_SEQUENCE_RESET);
 			if (_persist)
 			{
 				f8_scoped_spin_lock guard(_per_spl, _connection->get_pmodel() == pm_coro); // not needed for coroutine mode
 				if (!msg->is_admin()) // store this message's own bytes under the number it was sent with
 					_persist->put(msg->get_custom_seqnum() ? msg->get_custom_seqnum() : static_cast<unsigned int>(_next_send_seq),
 						f8String(optr, olen));
-				_persist->put(_next_send_seq + 1, _next_receive_seq);
-				//cout << "Persisted (send):" << (_next_send_seq + 1) << " and " << _next_receive_seq << endl;
+				_persist->put(_next_send_seq + (increment ? 1 : 0), _next_receive_seq);
 			}
-			if (!msg->get_custom_seqnum() && !msg->get_no_increment() && msg->get_msgtype() != Common_MsgType_SEQUENCE_RESET)
-			{
+			if (increment)
 				++_next_send_seq;
-				//cout << "Seqnum now:" << _next_send_seq << " and " << _next_receive_seq << endl;
-			}
 		}
 	}
 	catch (f8Exception& e)
